@@ -12,7 +12,7 @@ static std::vector<uint8_t> g_bank;
 static const int CORES[] = {OPNMIDI_EMU_MAME, OPNMIDI_EMU_NUKED_YM3438, OPNMIDI_EMU_GENS, OPNMIDI_EMU_YMFM_OPN2, OPNMIDI_EMU_NP2, OPNMIDI_EMU_MAME_2608, OPNMIDI_EMU_YMFM_OPNA, OPNMIDI_EMU_NUKED_YM2612};
 static const long RATES[] = {8000, 11025, 22050, 44100, 48000, 53267, 55466, 96000, 192000};
 
-struct Cfg { int core, family; long rate; bool pcmrate; int key, chips; int burst; int ending; /*0 note-off, 1 panic, 2 reset*/ int chord = 1; /* voices sounding the key in unison (one per MIDI channel) */ };
+struct Cfg { int core, family; long rate; bool pcmrate; int key, chips; int burst; int ending; /*0 note-off, 1 panic, 2 reset*/ int chord = 1; /* voices sounding the key in unison (one per MIDI channel) */ int prior_notes = 0; /* complete notes played (and each of them measured) on the same handle before the observed note */ };
 
 static std::string cfg_str(const Cfg &c, const char *name) { char b[200]; snprintf(b, sizeof b, "%s, family %s, %ld Hz%s, key %d, %d chip(s), burst %d, ending %s", name, c.family ? "OPNA" : "OPN2", c.rate, c.pcmrate ? ", run-at-PCM-rate" : "", c.key, c.chips, c.burst, c.ending == 0 ? "note-off" : c.ending == 1 ? "panic" : "reset"); std::string r = b; if(c.chord > 1) r += ", " + std::to_string(c.chord) + " voices in unison"; return r; }
 
@@ -35,6 +35,19 @@ static void run_case(const Cfg &c, en::CaseOut &o) {
     // the level the instance settles at before any note (the first milliseconds contain the resampler's start-up)
     double idle_mean = 0; size_t i0 = idle.size() / 2; for(size_t i = i0; i < idle.size(); i++) idle_mean += idle[i]; idle_mean /= (double)(idle.size() - i0);
     for(size_t i = i0; i < idle.size(); i++) if(fabs(idle[i] - idle_mean) > 0.01 * FS) { int x = idle[i]; snprintf(b, sizeof b, "output before any note is not a constant level: sample %d, mean %.1f", x, idle_mean); o.fail("C20/idle-not-constant", b + ctx); return; }
+    // a long life of the handle: complete notes one after another on the same chip objects, each held 60 ms and released; every one of them has to sound its pitch and end
+    { static const int PK[] = {60, 64, 67, 72, 76};
+      for(int k = 0; k < c.prior_notes; k++) { int key = PK[k % 5]; double nom = 440.0 * pow(2.0, (key - 69.0) / 12.0);
+        if(opn2_rt_noteOn(d, 0, (OPN2_UInt8)key, 127) != 1) { o.fail("C20/note-rejected", "note-on rejected" + ctx); return; }
+        std::vector<int> h; render(I, 60, h); size_t a0 = h.size() / 4; double mean = 0; for(size_t i = a0; i < h.size(); i++) mean += h[i]; mean /= (double)(h.size() - a0);
+        double ms2 = 0; for(size_t i = a0; i < h.size(); i++) ms2 += (h[i] - mean) * (h[i] - mean); double rms = sqrt(ms2 / (double)(h.size() - a0));
+        if(!c.pcmrate && rms < 0.01 * FS) { snprintf(b, sizeof b, "note #%d on this handle (key %d): held note RMS %.1f is below 1 %% of full scale: not audible", k + 1, key, rms); o.fail("C20/not-audible/later-note", b + ctx); return; }
+        if(!c.pcmrate) { double first = -1, last = -1; int n = 0; for(size_t i = a0 + 1; i < h.size(); i++) { double x = h[i - 1] - mean, y = h[i] - mean; if(x < 0 && y >= 0) { double t = (double)(i - 1) + (-x) / (y - x); if(first < 0) first = t; last = t; n++; } }
+            double f = n >= 4 ? (double)(n - 1) / ((last - first) / (double)c.rate) : 0; double tol = c.rate < 22050 ? 0.01 : 0.005;
+            if(n < 4 || fabs(f / nom - 1.0) > tol) { snprintf(b, sizeof b, "note #%d on this handle (key %d): fundamental %.3f Hz, nominal %.3f Hz", k + 1, key, f, nom); o.fail("C20/pitch/later-note", b + ctx); return; } }
+        opn2_rt_noteOff(d, 0, (OPN2_UInt8)key); std::vector<int> r; render(I, 100, r);
+        for(size_t i = r.size() * 6 / 10; i < r.size(); i++) if(fabs(r[i] - idle_mean) > 0.01 * FS) { snprintf(b, sizeof b, "note #%d on this handle (key %d): %.1f ms after the note-off the output is %d, idle level %.1f", k + 1, key, (double)i * 1000.0 / (double)c.rate, r[i], idle_mean); o.fail("C20/not-silent-after-release/later-note", b + ctx); return; }
+        o.units += h.size() + r.size(); } }
     // dense burst of events with no time in between, ending with the key down
     for(int k = 0; k < c.burst; k++) { opn2_rt_noteOn(d, (OPN2_UInt8)(k % 3), (OPN2_UInt8)(c.key + (k % 5)), 120); opn2_rt_noteOff(d, (OPN2_UInt8)(k % 3), (OPN2_UInt8)(c.key + (k % 5))); }
     double nominal = 440.0 * pow(2.0, (c.key - 69.0) / 12.0);
@@ -101,6 +114,9 @@ int main(int argc, char **argv) {
         if(i % 211 == 0) o.sample = cfg_str(c, "core"); run_case(c, o); };
       fams.push_back(F); }
     { static const int KEYS[] = {36, 60, 84}; static const long RT[] = {8000, 44100, 53267, 96000, 192000}; static const int CH[] = {3, 6};
+    { en::Family F; F.name = "many_notes_one_handle"; F.count = (uint64_t)8 * 2 * 2; F.chunk = 1; F.budget_s = 900; F.describe = "8 cores x chip family x rate {44100, 53267}: 160 complete notes (60 ms held, 100 ms released; keys 60,64,67,72,76 in turn) one after another on ONE handle - about 2500 register writes per chip object - each measured for audibility, pitch and return to the idle level; then the usual observed note";
+      F.run = [](uint64_t i, en::CaseOut &o) { Cfg c; c.core = CORES[i % 8]; c.family = (int)((i / 8) % 2); c.rate = (i / 16) ? 53267 : 44100; c.pcmrate = false; c.key = 69; c.chips = 1; c.burst = 0; c.ending = 0; c.prior_notes = 160; o.sample = "160 notes on one handle, core " + std::to_string(c.core); run_case(c, o); };
+      fams.push_back(F); }
       en::Family F; F.name = "unison_chords"; F.count = (uint64_t)8 * 2 * 5 * 2 * 3 * 2; F.chunk = 2; F.budget_s = 300; F.describe = "8 cores x family x rate {8000,44100,53267,96000,192000} x {3, 6} voices sounding the key in unison at full velocity on one chip (a loud, clipping sum) x key {36,60,84} x ending {note-off, panic}: onset, audibility, fundamental and return to the idle level";
       F.run = [](uint64_t i, en::CaseOut &o) { Cfg c; uint64_t r = i; c.core = CORES[r % 8]; r /= 8; c.family = (int)(r % 2); r /= 2; c.rate = RT[r % 5]; r /= 5; c.chord = CH[r % 2]; r /= 2; c.key = KEYS[r % 3]; r /= 3; c.ending = (int)r; c.pcmrate = false; c.chips = 1; c.burst = 0;
         if(i % 101 == 0) o.sample = cfg_str(c, "core"); run_case(c, o); };
